@@ -29,6 +29,9 @@ pub mod traits;
 mod transcripts;
 /// Bulletproofs+ utilities
 mod utils;
+/// Verification hooks (only with `--cfg bpp_verif`)
+#[cfg(bpp_verif)]
+pub mod verif_hooks;
 
 /// Bulletproofs+ generators and base points needed for a batch of range proofs
 pub use generators::bulletproof_gens::BulletproofGens;
